@@ -169,4 +169,227 @@ Section WE.
     apply (we_loop_valid _ _ _ out) in H; [exact H| |exact we_tb0_ok].
     unfold we_tracer0, Malign.N, Malign.M. apply length_concat_rows.
   Qed.
+
+  (* ---------------- termination of the outer loop ---------------- *)
+  Definition nzb (x : Q) : bool := negb (Qeq_bool x 0).
+  Definition nz (l : list Q) : nat := length (filter nzb l).
+
+  Lemma nz_le : forall (l l' : list Q), length l = length l' ->
+    (forall k, k < length l -> nzb (nth k l' 0%Q) = false \/ nth k l' 0%Q = nth k l 0%Q) -> nz l' <= nz l.
+  Proof.
+    induction l as [|x t IH]; intros l' HL H; destruct l' as [|x' t']; try discriminate; [unfold nz; cbn; lia|].
+    cbn [length] in HL. unfold nz in *. cbn [filter].
+    assert (IH' : length (filter nzb t') <= length (filter nzb t)).
+    { apply IH; [lia|]. intros k Hk. apply (H (S k)). cbn [length]. lia. }
+    destruct (H 0 ltac:(cbn [length]; lia)) as [E|E]; cbn [nth] in E.
+    - rewrite E. destruct (nzb x); cbn [length]; lia.
+    - subst x'. destruct (nzb x); cbn [length]; lia.
+  Qed.
+
+  Lemma nz_lt : forall (l l' : list Q) (k0 : nat), length l = length l' -> k0 < length l ->
+    (forall k, k < length l -> nzb (nth k l' 0%Q) = false \/ nth k l' 0%Q = nth k l 0%Q) ->
+    nzb (nth k0 l 0%Q) = true -> nzb (nth k0 l' 0%Q) = false -> nz l' < nz l.
+  Proof.
+    induction l as [|x t IH]; intros l' k0 HL Hk H N1 N2; destruct l' as [|x' t']; try discriminate;
+      [cbn [length] in Hk; lia|].
+    cbn [length] in HL, Hk. unfold nz in *. cbn [filter].
+    destruct k0 as [|k0].
+    - cbn [nth] in N1, N2. rewrite N1, N2. cbn [length].
+      assert (length (filter nzb t') <= length (filter nzb t)).
+      { apply nz_le; [lia|]. intros k Hk'. apply (H (S k)). cbn [length]. lia. }
+      lia.
+    - assert (IH' : length (filter nzb t') < length (filter nzb t)).
+      { apply (IH t' k0); [lia|lia| |exact N1|exact N2]. intros k Hk'. apply (H (S k)). cbn [length]. lia. }
+      destruct (H 0 ltac:(cbn [length]; lia)) as [E|E]; cbn [nth] in E.
+      + rewrite E. destruct (nzb x); cbn [length]; lia.
+      + subst x'. destruct (nzb x); cbn [length]; lia.
+  Qed.
+
+  (* the maximum of a non-empty list is one of its elements, and last_index_eq finds it *)
+  Lemma qmax_in : forall (l : list Q) (m : Q), In (fold_left (fun m x => if qgt x m then x else m) l m) (m :: l).
+  Proof.
+    induction l as [|x t IH]; intros m; cbn [fold_left]; [left; reflexivity|].
+    destruct (IH (if qgt x m then x else m)) as [E|E].
+    - rewrite <- E. destruct (qgt x m); [right; left; reflexivity|left; reflexivity].
+    - right. right. exact E.
+  Qed.
+
+  Lemma last_index_hit (l : list Q) (v : Q) : (exists x, In x l /\ Qeq_bool x v = true) ->
+    Qeq_bool (nth (last_index_eq l v) l 0%Q) v = true.
+  Proof.
+    unfold last_index_eq.
+    assert (G : forall t pre best,
+              (best < length pre /\ Qeq_bool (nth best (pre ++ t) 0%Q) v = true) \/
+              (exists x, In x t /\ Qeq_bool x v = true) ->
+              let r := snd (fold_left (fun '(k, best) x => (S k, if Qeq_bool x v then k else best)) t (length pre, best)) in
+              Qeq_bool (nth r (pre ++ t) 0%Q) v = true).
+    { induction t as [|x t IH]; intros pre best H; cbn [fold_left snd].
+      - destruct H as [[_ H]|[y [[] _]]]. exact H.
+      - specialize (IH (pre ++ [x]) (if Qeq_bool x v then length pre else best)).
+        rewrite app_length in IH. cbn [length] in IH. replace (length pre + 1) with (S (length pre)) in IH by lia.
+        rewrite <- app_assoc in IH. cbn [app] in IH. apply IH.
+        destruct (Qeq_bool x v) eqn:Ex.
+        + left. split; [lia|]. rewrite app_nth2 by lia. rewrite Nat.sub_diag. exact Ex.
+        + destruct H as [[H1 H2]|[y [[Ey|Hy] Hv]]].
+          * left. split; [lia|exact H2].
+          * subst y. congruence.
+          * right. exists y. auto. }
+    intros H. specialize (G l [] 0). cbn [app length] in G. apply G. right. exact H.
+  Qed.
+
+  Lemma ins_trace_mono (tb : nat -> nat -> Z) : forall f i j a b ig jg i' j' a' b' ig' jg',
+    ins_trace tb f i j a b ig jg = Some (i', j', a', b', ig', jg') -> i' <= i /\ j' <= j.
+  Proof.
+    induction f as [|f IH]; intros i j a b ig jg i' j' a' b' ig' jg' H; cbn [ins_trace] in H.
+    - destruct (_ =? 0)%Z; [inversion H; subst; lia|discriminate].
+    - destruct (_ =? 0)%Z; [inversion H; subst; lia|].
+      destruct (_ =? 3)%Z; [apply IH in H; lia|].
+      destruct (_ =? 1)%Z; [apply IH in H; lia|].
+      destruct (_ =? 2)%Z; [apply IH in H; lia|inversion H; subst; lia].
+  Qed.
+
+  Lemma ins_trace_progress (tb : nat -> nat -> Z) f i j a b ig jg i' j' a' b' ig' jg' :
+    (tb i j = 1 \/ tb i j = 2 \/ tb i j = 3)%Z -> 0 < i -> 0 < j ->
+    ins_trace tb (S f) i j a b ig jg = Some (i', j', a', b', ig', jg') -> i' < i \/ j' < j.
+  Proof.
+    intros T Hi Hj H. cbn [ins_trace] in H.
+    destruct (Z.eqb_spec (tb i j) 0) as [E|N0]; [lia|].
+    destruct (Z.eqb_spec (tb i j) 3) as [E|N3]; [apply ins_trace_mono in H; lia|].
+    destruct (Z.eqb_spec (tb i j) 1) as [E|N1]; [apply ins_trace_mono in H; lia|].
+    destruct (Z.eqb_spec (tb i j) 2) as [E|N2]; [apply ins_trace_mono in H; lia|lia].
+  Qed.
+
+  Definition we_inv (tracer : list Q) (tb : list (list Z)) : Prop :=
+    length tracer = S Nx * S Mx /\ tb_ok tb /\
+    (forall i j, i <= Nx -> j <= Mx ->
+       (tb_get tb i j = 0 \/ tb_get tb i j = 1 \/ tb_get tb i j = 2 \/ tb_get tb i j = 3)%Z) /\
+    (forall i j, i <= Nx -> j <= Mx -> nzb (nth (i * S Mx + j) tracer 0%Q) = true -> tb_get tb i j <> 0%Z).
+
+  Lemma nzb_eq (x y : Q) : Qeq_bool x y = true -> nzb x = nzb y.
+  Proof.
+    intros E. apply Qeq_bool_iff in E. unfold nzb. f_equal.
+    destruct (Qeq_bool x 0) eqn:A1; destruct (Qeq_bool y 0) eqn:A2; try reflexivity.
+    - apply Qeq_bool_iff in A1. assert (H : (y == 0)%Q) by (rewrite <- E; exact A1).
+      apply Qeq_bool_iff in H. congruence.
+    - apply Qeq_bool_iff in A2. assert (H : (x == 0)%Q) by (rewrite E; exact A2).
+      apply Qeq_bool_iff in H. congruence.
+  Qed.
+
+  Lemma nz_zero_all (l : list Q) : nz l = 0 -> forall x, In x l -> nzb x = false.
+  Proof.
+    unfold nz. induction l as [|y t IH]; intros H x Hx; [destruct Hx|].
+    cbn [filter] in H. destruct (nzb y) eqn:E; [cbn [length] in H; lia|].
+    destruct Hx as [<-|Hx]; [exact E|apply IH; assumption].
+  Qed.
+
+  Lemma qmax_list_in (l : list Q) : l <> [] -> In (qmax_list l) l.
+  Proof.
+    intros NE. destruct l as [|x t]; [congruence|]. unfold qmax_list. cbn [hd tl]. apply qmax_in.
+  Qed.
+
+  Theorem we_loop_total : forall fuel tracer tb,
+    we_inv tracer tb -> nz tracer <= fuel -> we_loop A B sc gap fuel tracer tb <> None.
+  Proof.
+    induction fuel as [|f IH]; intros tracer tb [HL [HT [H4 H3]]] HN.
+    - cbn [we_loop].
+      assert (NE : tracer <> []) by (intros E; rewrite E in HL; cbn [length] in HL; lia).
+      pose proof (nz_zero_all tracer ltac:(lia) _ (qmax_list_in tracer NE)) as Z.
+      unfold nzb in Z. apply negb_false_iff in Z. rewrite Z. discriminate.
+    - cbn [we_loop].
+      assert (NE : tracer <> []) by (intros E; rewrite E in HL; cbn [length] in HL; lia).
+      destruct (Qeq_bool (qmax_list tracer) 0) eqn:EM; [discriminate|].
+      set (mx := qmax_list tracer) in *.
+      set (idx := last_index_eq tracer mx).
+      assert (Hidx : idx < S Nx * S Mx) by (rewrite <- HL; apply last_index_lt; exact NE).
+      destruct (idx_bounds idx Hidx) as [Bi Bj]. unfold Malign.M.
+      set (i := idx / S Mx) in *. set (j := idx - i * S Mx) in *.
+      assert (Eidx : idx = i * S Mx + j).
+      { subst j. pose proof (Nat.mul_div_le idx (S Mx) ltac:(lia)). subst i. lia. }
+      assert (NZ : nzb (nth idx tracer 0%Q) = true).
+      { assert (Hhit : Qeq_bool (nth idx tracer 0%Q) mx = true).
+        { apply last_index_hit. exists mx. split; [apply qmax_list_in; exact NE|]. apply Qeq_bool_iff. reflexivity. }
+        rewrite (nzb_eq _ _ Hhit). unfold nzb. rewrite EM. reflexivity. }
+      assert (T0 : tb_get tb i j <> 0%Z) by (apply H3; [exact Bi|exact Bj|rewrite <- Eidx; exact NZ]).
+      destruct HT as [R C].
+      assert (Hi0 : 0 < i) by (destruct i; [exfalso; apply T0; apply R; exact Bj|lia]).
+      assert (Hj0 : 0 < j) by (destruct j; [exfalso; apply T0; apply C; exact Bi|lia]).
+      destruct (extraction_ok tb i j (conj R C) Bi Bj) as [imin [jmin [almA [almB [ig [jg [Ht _]]]]]]].
+      rewrite Ht.
+      assert (PR : imin < i \/ jmin < j).
+      { destruct (i + j) eqn:Ef; [lia|].
+        apply (ins_trace_progress (tb_get tb) n i j (somes A) (somes B) 0 0 imin jmin almA almB ig jg); try assumption.
+        destruct (H4 i j Bi Bj) as [E|E]; [congruence|exact E]. }
+      pose proof (ins_trace_mono _ _ _ _ _ _ _ _ _ _ _ _ _ _ Ht) as [Mi Mj].
+      rewrite (surjective_pairing (zero_region A B imin i jmin j tracer tb)).
+      set (tracer' := fst (zero_region A B imin i jmin j tracer tb)).
+      set (tb' := snd (zero_region A B imin i jmin j tracer tb)).
+      assert (INV' : we_inv tracer' tb' /\ nz tracer' < nz tracer).
+      { pose proof (tracer_len_zero imin i jmin j tracer tb) as L'. fold tracer' in L'.
+        pose proof (zero_region_tb_ok imin i jmin j tracer tb (conj R C)) as T'. fold tb' in T'.
+        set (hit := fun i0 j0 => (0 <? i0) && (0 <? j0) &&
+                                 ((imin <? i0) && (i0 <=? i) || (jmin <? j0) && (j0 <=? j))).
+        assert (TR : forall i0 j0, i0 <= Nx -> j0 <= Mx ->
+                  nth (i0 * S Mx + j0) tracer' 0%Q = if hit i0 j0 then 0%Q else nth (i0 * S Mx + j0) tracer 0%Q).
+        { intros i0 j0 Hi Hj. subst tracer'. unfold zero_region. cbn [fst]. unfold Malign.N, Malign.M.
+          apply (nth_concat_rows (fun i1 j1 => if hit i1 j1 then 0%Q else nth (i1 * S Mx + j1) tracer 0%Q)); lia. }
+        assert (TB : forall i0 j0, i0 <= Nx -> j0 <= Mx ->
+                  tb_get tb' i0 j0 = if hit i0 j0 then 0%Z else tb_get tb i0 j0).
+        { intros i0 j0 Hi Hj. subst tb'. unfold zero_region. cbn [snd]. unfold Malign.N, Malign.M.
+          apply (tb_get_table (fun i1 j1 => if hit i1 j1 then 0%Z else tb_get tb i1 j1)); assumption. }
+        split.
+        - split; [exact L'|]. split; [exact T'|]. split.
+          + intros i0 j0 Hi Hj. rewrite TB by assumption. destruct (hit i0 j0); [left; reflexivity|apply H4; assumption].
+          + intros i0 j0 Hi Hj. rewrite TR, TB by assumption. destruct (hit i0 j0); [discriminate|apply H3; assumption].
+        - apply (nz_lt tracer tracer' idx); [congruence|lia| |exact NZ|].
+          + intros k Hk. rewrite HL in Hk.
+            destruct (idx_bounds k Hk) as [Ki Kj].
+            assert (Ek : k = k / S Mx * S Mx + (k - k / S Mx * S Mx)).
+            { pose proof (Nat.mul_div_le k (S Mx) ltac:(lia)). lia. }
+            rewrite Ek. rewrite TR by assumption. destruct (hit _ _); [left; reflexivity|right; reflexivity].
+          + rewrite Eidx. rewrite TR by assumption.
+            assert (HH : hit i j = true).
+            { unfold hit. apply andb_true_iff. split.
+              - apply andb_true_iff. split; apply Nat.ltb_lt; assumption.
+              - apply orb_true_iff. destruct PR as [P|P]; [left|right]; apply andb_true_iff;
+                  (split; [apply Nat.ltb_lt; exact P|apply Nat.leb_le; lia]). }
+            rewrite HH. reflexivity. }
+      destruct INV' as [INV' LT].
+      specialize (IH tracer' tb' INV' ltac:(lia)).
+      destruct (we_loop A B sc gap f tracer' tb'); [discriminate|congruence].
+  Qed.
+
+  Lemma we_inv_init : we_inv (we_tracer0 A B sc gap) (we_tb0 A B sc gap).
+  Proof.
+    assert (TBG : forall i j, tb_get (we_tb0 A B sc gap) i j = snd (sw_get A B sc gap i j))
+      by (intros; apply tb_get_map_snd).
+    assert (SG : forall i j, i <= Nx -> j <= Mx ->
+              sw_get A B sc gap i j = spec z0 z0 (sw_cell A B sc gap) i j).
+    { intros i j Hi Hj. unfold sw_get, sw_matrix. apply fill_spec; unfold Malign.N, Malign.M; lia. }
+    assert (CC : forall i j, let c := spec z0 z0 (sw_cell A B sc gap) i j in
+              (snd c = 0 \/ snd c = 1 \/ snd c = 2 \/ snd c = 3)%Z /\ (snd c = 0%Z -> fst c = 0%Q)).
+    { intros i j. cbv zeta. destruct i as [|i]; [cbn [spec]; unfold z0; cbn; auto|].
+      destruct j as [|j]; [rewrite spec_col0; unfold z0; cbn; auto|].
+      rewrite spec_cell. unfold sw_cell.
+      match goal with |- context [choose4 ?a ?b ?c] =>
+        destruct (choose4_cases a b c) as [E|[E|[E|E]]]; rewrite E; cbn [fst snd] end;
+        (split; [auto|intros; try discriminate; reflexivity]). }
+    split; [unfold we_tracer0, Malign.N, Malign.M; apply length_concat_rows|].
+    split; [exact we_tb0_ok|]. split.
+    - intros i j Hi Hj. rewrite TBG, SG by assumption. exact (proj1 (CC i j)).
+    - intros i j Hi Hj NZ E. rewrite TBG, SG in E by assumption.
+      unfold we_tracer0, Malign.N, Malign.M in NZ.
+      rewrite (nth_concat_rows (fun i0 j0 => match i0, j0 with
+                                             | S _, S _ => fst (sw_get A B sc gap i0 j0) | _, _ => 0%Q end)) in NZ by lia.
+      destruct i as [|i]; [discriminate|]. destruct j as [|j]; [discriminate|].
+      rewrite SG in NZ by assumption. rewrite (proj2 (CC (S i) (S j)) E) in NZ. discriminate.
+  Qed.
+
+  (* the `while True` loop of we_align terminates: the fuel (N+1)(M+1) is sufficient *)
+  Theorem we_align_total : we_align A B sc gap <> None.
+  Proof.
+    unfold we_align. apply we_loop_total; [exact we_inv_init|].
+    destruct we_inv_init as [L _]. unfold nz, Malign.N, Malign.M. rewrite <- L.
+    generalize (we_tracer0 A B sc gap). induction l as [|x t IHt]; cbn [filter length]; [lia|].
+    destruct (nzb x); cbn [length]; lia.
+  Qed.
 End WE.
